@@ -28,6 +28,9 @@ def _programs() -> dict[str, dict[str, Any]]:
     P["float_square"] = {"fn": lambda x: x @ x.T + 1.0, "specs": [sds((4, 4), jnp.float32)], "x": lambda r: [r.standard_normal((4, 4)).astype(np.float32)]}
     P["float_large_values"] = {"fn": lambda x: x * 1000.0, "specs": [sds((5,), jnp.float32)], "x": lambda r: [r.uniform(1, 2, 5).astype(np.float32)]}
     P["int_vec"] = {"fn": lambda x: x * 2 + 1, "specs": [sds((6,), jnp.int32)], "x": lambda r: [r.integers(-5, 5, 6).astype(np.int32)]}
+    P["int_large_values"] = {"fn": lambda x: x * 1000 + 4000, "specs": [sds((6,), jnp.int32)], "x": lambda r: [r.integers(1, 9, 6).astype(np.int32)]}
+    P["int64_huge_values"] = {"fn": lambda x: x * (2**40) + 3, "specs": [sds((4,), jnp.int64)], "x": lambda r: [r.integers(1, 9, 4).astype(np.int64)], "dp": True}
+    P["uint8_vec"] = {"fn": lambda x: x // 2 + 100, "specs": [sds((6,), jnp.uint8)], "x": lambda r: [r.integers(0, 250, 6).astype(np.uint8)]}
     P["bool_vec"] = {"fn": lambda x: x > 0, "specs": [sds((6,), jnp.float32)], "x": lambda r: [np.array([0.5, -0.5, 1.0, -1.0, 2.0, -2.0], np.float32)]}
     P["multi_out"] = {
         "fn": lambda x, k: (jnp.sin(x), k + 1, x.sum(axis=0)),
@@ -49,7 +52,7 @@ def _programs() -> dict[str, dict[str, Any]]:
 PERTURB = [
     "identity",
     "eps_one_0.1x", "eps_one_2x", "eps_one_10x", "eps_all_0.1x", "eps_all_2x", "eps_all_10x",
-    "flip_bool", "int_plus_one", "int_as_float_plus_0.4", "int32_as_int64_plus_2p32", "int_as_float_same",
+    "flip_bool", "int_plus_one", "int_all_plus_one", "int_one_plus_three", "int_as_float_plus_0.4", "int32_as_int64_plus_2p32", "int_as_float_same",
     "nan_one", "inf_one", "neg_inf_one",
     "reshape_same_size", "append_unit_axis", "transpose_square", "flatten",
     "drop_last_output", "duplicate_output", "swap_outputs",
@@ -61,10 +64,15 @@ TOLS = [(1e-3, 1e-5), (1e-5, 1e-7), (0.0, 0.0), (1e-1, 1e-2)]
 def enumerate_cases(tier: str, seed: int) -> list[dict[str, Any]]:
     cases = []
     tols = TOLS if tier == "thorough" else TOLS[:2]
+    exact_kinds = ("flip_bool", "int_plus_one", "int_all_plus_one", "int_one_plus_three")
     for pname in _programs():
         for k in PERTURB:
-            for ti, _ in enumerate(tols):
-                if ti > 0 and not k.startswith("eps") and k != "identity":
+            for ti, _ in enumerate(TOLS):
+                if k in exact_kinds:
+                    # integers and booleans are compared exactly whatever tolerances the caller passes
+                    if tier == "quick" and ti not in (0, 3):
+                        continue
+                elif ti >= len(tols) or (ti > 0 and not k.startswith("eps") and k != "identity"):
                     continue
                 cases.append({"key": f"{pname}|{k}|tol{ti}", "prog": pname, "perturb": k, "tol": ti, "cost": 1.0})
     return recs.only_filter(cases)
@@ -134,7 +142,7 @@ def _perturb(model: onnx.ModelProto, kind: str, base_out: list[np.ndarray], rtol
         mask.flat[int(rng.integers(a.size))] = True
         retarget(i, [_const("c18_mask", mask), helper.make_node("Xor", [outs[i].name, "c18_mask"], ["c18_out"])], "c18_out", TensorProto.BOOL, list(a.shape))
         return m, "one boolean flipped"
-    if kind in ("int_plus_one", "int_as_float_plus_0.4", "int32_as_int64_plus_2p32", "int_as_float_same"):
+    if kind in ("int_plus_one", "int_all_plus_one", "int_one_plus_three", "int_as_float_plus_0.4", "int32_as_int64_plus_2p32", "int_as_float_same"):
         i = pick({"int"})
         if i is None:
             return None, ""
@@ -142,6 +150,12 @@ def _perturb(model: onnx.ModelProto, kind: str, base_out: list[np.ndarray], rtol
         if kind == "int_plus_one":
             d = np.zeros(a.shape, a.dtype)
             d.flat[int(rng.integers(a.size))] = 1
+            nodes = [_const("c18_d", d), helper.make_node("Add", [outs[i].name, "c18_d"], ["c18_out"])]
+            et = tproto(a)
+        elif kind in ("int_all_plus_one", "int_one_plus_three"):
+            d = np.ones(a.shape, a.dtype) if kind == "int_all_plus_one" else np.zeros(a.shape, a.dtype)
+            if kind == "int_one_plus_three":
+                d.flat[int(rng.integers(a.size))] = 3
             nodes = [_const("c18_d", d), helper.make_node("Add", [outs[i].name, "c18_d"], ["c18_out"])]
             et = tproto(a)
         elif kind == "int_as_float_plus_0.4":
